@@ -20,7 +20,7 @@ from simv.tape import Tape
 
 ID = "C15"
 LEVEL = "exploration"
-QUICK_RUNS = 900
+QUICK_RUNS = 3000
 CHUNK = 10
 RULE = ("seed -> schema, pool of 1-3 documents (+ refused variants: syntax error, unknown field, unused / unknown fragment), "
         "2-8 requests over the pool (different variables, operation names, fault sets incl. one exception instance shared by "
